@@ -11,4 +11,5 @@ Separate Extraction
   Gitignore.Model.ignored Gitignore.Model.ignored_dir Gitignore.Model.excluded Gitignore.Model.supported Gitignore.Model.content
   Gitignore.Model.run_cmd Gitignore.Model.xvc_build Gitignore.Model.xvc_chk
   Gitignore.Model.K_user_whitelist Gitignore.Model.K_engine_mismatch Gitignore.Model.file_targets
-  Gitignore.Model.wf_cmd Gitignore.Model.all_end_nl Gitignore.Model.init_content Gitignore.Model.plain_path.
+  Gitignore.Model.wf_cmd Gitignore.Model.all_end_nl Gitignore.Model.init_content Gitignore.Model.path_ok
+  Gitignore.Model.escape_name Gitignore.Model.valid_name.
